@@ -567,7 +567,7 @@ META["C19"] = dict(
     "by hash; every case is non-trivial (a decision is judged or logged as unspecified).",
     gates={
         "mon.group_config_in_subcommand_section": g(100, 1000), "mon.list_file_on_argv": g(100, 1000),
-        "mon.relative_path_after_failed_parse": g(80, 800), "mon.path_object_given_to_another_mode": g(150, 1500), "st.nested.exit_on_error.failing": g(30, 300),
+        "mon.relative_path_after_failed_parse": g(80, 800), "mon.path_object_given_to_another_mode": g(150, 800), "st.nested.exit_on_error.failing": g(30, 300),
         "st.nested.config_dir_through_symlink": g(300, 3000), "st.nested.append_key_with_relative_paths": g(100, 1000),
         "mon.path_type_in_parser_checks": g(500, 5000),
         "mon.path_mode_checks": g(10000, 50000), "st.accept": g(500, 5000), "st.reject": g(5000, 40000),
